@@ -6,7 +6,7 @@
    steps that does not look at the braking index survives the whole timed walk. *)
 From Coq Require Import Reals Lra Lia List Bool ZArith Arith.
 From AltModel Require Import Num Interp Powertrain Loco Consist SpeedPoints PathGeom Resist Braking TrainStep TrainEnergy TrainFull WholeSim.
-From AltProofs Require Import NumR ConsistP C10P TrainStepP BrakingP SpeedPointsP PathGeomP TrainFullP WholeSplitP.
+From AltProofs Require Import NumR PowertrainP LocoP ConsistP C08P C10P C01P TrainStepP BrakingP SpeedPointsP PathGeomP TrainFullP WholeSimP WholeSplitP.
 Import ListNotations.
 Open Scope R_scope.
 
@@ -231,4 +231,31 @@ Proof.
   - intros; exact I.
   - exact I.
   - exact T'.
+Qed.
+
+(* C01 / C08 for a dispatched train: at EVERY step every unit of the consist obeys the per-unit laws (second law, power
+   and energy ledgers, SOC relation, delivered = share), the consist's delivered power is the sum of the shares, and no
+   unit's cumulative loss / fuel / braking energy decreases (hypotheses: positive step size, well-formed units) *)
+Definition units_step (x x1 : SLStateR * ConsistR) : Prop :=
+  exists shares, Forall3 unit_laws (cn_locos (snd x)) shares (cn_locos (snd x1)) /\
+    Forall2 cum_le (cn_locos (snd x)) (cn_locos (snd x1)) /\
+    cs_pwr_out (cn_state (snd x1)) = ConsistP.sumR (fun p => p) shares.
+
+Theorem sl_timed_walk_units fuel_bp fuel_steps (net : list LinkR) (tp : TPR) tl rp fmax fb st cache (con : ConsistR) x' :
+  sl_timed_walk fuel_bp fuel_steps net tp tl rp fmax fb st cache con = Ok x' ->
+  0 < k_dt (ts_k st) -> Forall loco_ok (cn_locos con) ->
+  tw_trace fmax any_pts units_step ({| sl_st := st; sl_cache := cache; sl_fb := fb; sl_idx := 0 |}, con) x' /\
+  Forall loco_ok (cn_locos (snd x')).
+Proof.
+  intros H Hdt Hok. apply sl_timed_walk_trace in H.
+  destruct (tw_trace_lift fmax any_pts
+              (fun x => k_dt (ts_k (sl_st (fst x))) = k_dt (ts_k st) /\ Forall loco_ok (cn_locos (snd x))) units_step)
+    with (3 := H) as ((_ & A) & T).
+  - intros e pts [s c] [s1 c1] _ (Hd & Ho) Hs. cbn [fst snd] in *.
+    assert (Hd0 : 0 < k_dt (ts_k (sl_st s))) by (rewrite Hd; exact Hdt).
+    destruct (sl_full_step_units _ _ _ _ _ _ _ Hs Hd0 Ho) as (sh & L & O1 & C1 & P1 & K1).
+    split; [split; [congruence|exact O1]|]. exists sh. cbn [snd]. repeat split; assumption.
+  - intros x x1 (Hd & Ho) (Hc & Hst & _). rewrite Hst, Hc. split; assumption.
+  - cbn [fst snd sl_st]. split; [reflexivity|exact Hok].
+  - split; [exact T|exact A].
 Qed.
